@@ -418,4 +418,27 @@ CHECKS = {
              "thorough": {"checks": 4000, "shards": 8, "timeout": 3400}},
         ],
     },
+    "C08": {
+        "level": "exploration",
+        "level_text": ("All cases run the real authenticateTransport over real loopback QUIC connections (transferquic.QUICConn, the only "
+                       "transport that exports TLS keying material), a fresh TLS session per case. Enumerated: all 64 pairs of 8 join "
+                       "codes on honest ends (accepted iff equal); EVERY single-bit flip (50 bytes x 8) and EVERY truncation of either "
+                       "authentication message between honest ends holding the same code (the side that receives it must reject). "
+                       "Generated (rapid): rogue listener vs honest sender, rogue dialer vs honest receiver with 11 strategies (random "
+                       "proof, proof for another code, replay of a proof captured on another TLS session with the same code, reflection, "
+                       "reflection with rewritten role byte, wrong version, role swap, short, long, silence, zero MAC), and a relay "
+                       "between two TLS sessions whose honest ends hold the same code (verbatim, nonce or role rewritten): the honest "
+                       "side(s) must return an error."),
+        "level_note": "Assumes HMAC-SHA256 and the TLS exporter are sound; the attacker family is finite and generated. The application-level clause (no manifest byte before authentication on primary and extra connections) is not decided here - see DESIGN.md.",
+        "technique": "exhaustive single-bit/truncation mutation of the handshake messages + generated attacker strategies (rapid) against the real handshake over real QUIC/TLS sessions",
+        "rule": ("case = code pair | alteration (message, bit or cut) | (attacker position, strategy, honest code); non-trivial = the honest "
+                 "side got a well-formed message and had to decide by MAC/role/version (all alteration and attacker cases) or a code pair; "
+                 "distinct by case parameters."),
+        "assumptions": ["HMAC-SHA256 and TLS exporter soundness"],
+        "units": [
+            {"name": "app", "pkg": "./internal/app", "run": "^TestVerifC08",
+             "quick": {"checks": 60, "shards": 8, "timeout": 900},
+             "thorough": {"checks": 600, "shards": 16, "timeout": 3400}},
+        ],
+    },
 }
